@@ -4,8 +4,8 @@ use std::io::{BufWriter, Read, Write};
 use std::path::{Path, PathBuf};
 use std::{env, fs, io};
 use xml_dom::{
-    AsNode, Attr, AttrMut, CharacterData, Document, DocumentMut, Element, NamedNodeMapMut, Node,
-    PrettyPrint,
+    AsExpandedName, AsNode, Attr, AttrMut, CharacterData, Document, DocumentMut, NamedNodeMapMut,
+    Node, PrettyPrint, ProcessingInstruction,
 };
 
 struct Argument {
@@ -160,6 +160,18 @@ fn document(path: Option<&Path>) -> Result<xml_dom::XmlDocument, Box<dyn Error>>
     Ok(dom)
 }
 
+/// `prefix:local` of an element or attribute of the replacement value.
+fn qualified_name<T>(node: &T) -> Result<String, Box<dyn Error>>
+where
+    T: AsExpandedName,
+{
+    match node.as_expanded_name()? {
+        Some((local, Some(prefix), _)) if prefix != "xmlns" => Ok(format!("{}:{}", prefix, local)),
+        Some((local, _, _)) => Ok(local),
+        None => Err("Not supported XML node type.".into()),
+    }
+}
+
 fn parse_node(node: &str) -> Result<xml_dom::XmlElement, Box<dyn Error>> {
     let doc = format!("<e>{}</e>", node);
     let (rest, dom) = xml_dom::XmlDocument::from_raw(doc.as_str())?;
@@ -225,7 +237,7 @@ where
             let mut n = node
                 .owner_document()
                 .unwrap()
-                .create_attribute(v.name().as_str())?;
+                .create_attribute(qualified_name(&v)?.as_str())?;
             n.borrow_mut().set_value(v.value()?.as_str())?;
 
             if let Some(mut attr) = node.attributes() {
@@ -252,7 +264,7 @@ where
             let n = node
                 .owner_document()
                 .unwrap()
-                .create_element(v.tag_name().as_str())?;
+                .create_element(qualified_name(&v)?.as_str())?;
             node.append_child(n.as_node())?;
 
             if let Some(attributes) = v.attributes() {
@@ -266,10 +278,34 @@ where
             }
         }
         xml_dom::XmlNode::EntityReference(v) => {
+            let name = v.node_name();
+            let document = node.owner_document().unwrap();
+            if name.starts_with("&#") {
+                // a character reference: DOM has no factory for it.
+                match v.value()?.as_str() {
+                    "&" => {
+                        let n = document.create_entity_reference("amp")?;
+                        node.append_child(n.as_node())?;
+                    }
+                    "<" => {
+                        let n = document.create_entity_reference("lt")?;
+                        node.append_child(n.as_node())?;
+                    }
+                    value => {
+                        let n = document.create_text_node(value);
+                        node.append_child(n.as_node())?;
+                    }
+                }
+            } else {
+                let n = document.create_entity_reference(name.as_str())?;
+                node.append_child(n.as_node())?;
+            }
+        }
+        xml_dom::XmlNode::PI(v) => {
             let n = node
                 .owner_document()
                 .unwrap()
-                .create_entity_reference(v.node_name().as_str())?;
+                .create_processing_instruction(v.target().as_str(), v.data().as_str())?;
             node.append_child(n.as_node())?;
         }
         xml_dom::XmlNode::Text(v) => {
